@@ -8,6 +8,7 @@
 -/
 import Uec.Model.Results
 import Uec.Lemmas.Operator
+import Uec.Lemmas.Results
 namespace Uec.Props.C15
 open Uec Uec.ResSpec
 
@@ -120,6 +121,25 @@ theorem total_order_laws (E : Elem T) (h : E.Lawful) :
   · intro a b
     rw [h.swap a b]
     cases E.cmp a b <;> simp [Ordering.swap]
+
+/-- **For any linear order** `T` (Mathlib's `LinearOrder`): `Score T` and `Error T` are lawful total
+    orders, `Score` is `T`'s order and `Error` its reverse — in `cmp` and in the operators. -/
+theorem any_linear_order (T : Type) [LinearOrder T] :
+    (Score.elem (Elem.ofLinearOrder T)).Lawful ∧ (Error.elem (Elem.ofLinearOrder T)).Lawful ∧
+    (∀ a b : T, (Score.elem (Elem.ofLinearOrder T)).cmp ⟨a⟩ ⟨b⟩ = compare a b) ∧
+    (∀ a b : T, (Error.elem (Elem.ofLinearOrder T)).cmp ⟨a⟩ ⟨b⟩ = compare b a) ∧
+    (∀ a b : T, (Score.elem (Elem.ofLinearOrder T)).lt ⟨a⟩ ⟨b⟩ = true ↔ a < b) ∧
+    (∀ a b : T, (Error.elem (Elem.ofLinearOrder T)).lt ⟨a⟩ ⟨b⟩ = true ↔ b < a) := by
+  have hl := Elem.ofLinearOrder_lawful T
+  refine ⟨score_lawful _ hl, error_lawful _ hl, fun _ _ => rfl, ?_, ?_, ?_⟩
+  · intro a b
+    exact (error_descending _ hl ⟨a⟩ ⟨b⟩).1
+  · intro a b
+    rw [(operators_agree _ (score_lawful _ hl) ⟨a⟩ ⟨b⟩).2.1]
+    exact compare_lt_iff_lt
+  · intro a b
+    rw [(operators_agree _ (error_lawful _ hl) ⟨a⟩ ⟨b⟩).2.1, (error_descending _ hl ⟨a⟩ ⟨b⟩).1]
+    exact compare_lt_iff_lt
 
 /-! ## 2. A score is never comparable to an error -/
 
